@@ -9,5 +9,5 @@ from jaxtyping import Array
 def try_cast(x: Any) -> Array | None:
     try:
         return jnp.asarray(x)
-    except TypeError:
+    except (TypeError, ValueError):
         return None
